@@ -365,6 +365,11 @@ func c08Strata() []*gast.Grammar {
 			r("E1", gast.C(act(gast.S(gast.Lab("a", gast.Ref("E1")), gast.L("+"), gast.Lab("b", gast.Ref("At")), gast.L("!")), 1, mon.Spec{}),
 				act(gast.S(gast.Lab("a", gast.Ref("E1")), gast.L("+"), gast.Lab("b", gast.Ref("At"))), 2, mon.Spec{}), gast.Ref("At"))),
 			r("At", act(gast.Plus(gast.Cl(&gast.ClassSpec{Ranges: [][2]rune{{'0', '9'}}})), 3, mon.Spec{}))),
+		// a directly left-recursive rule above an indirect cycle on the lower level
+		mk(r("S", gast.S(gast.Ref("E1"), gast.NotE(gast.Dot()))),
+			r("E1", gast.C(act(gast.S(gast.Lab("a", gast.Ref("E1")), gast.Cl(gast.Chars("+-")), gast.Lab("b", gast.Ref("E2"))), 1, mon.Spec{}), gast.Ref("E2"))),
+			r("E2", gast.C(gast.Ref("Prod"), gast.Ref("At"))), r("Prod", act(gast.S(gast.Lab("a", gast.Ref("E2")), gast.Cl(gast.Chars("*/")), gast.Lab("b", gast.Ref("At"))), 2, mon.Spec{})),
+			r("At", act(gast.Plus(gast.Cl(&gast.ClassSpec{Ranges: [][2]rune{{'0', '9'}}})), 3, mon.Spec{R: 2}))),
 		// classic two-level arithmetic
 		mk(r("S", gast.S(gast.Ref("E1"), gast.NotE(gast.Dot()))),
 			r("E1", gast.C(act(gast.S(gast.Lab("a", gast.Ref("E1")), gast.L("+"), gast.Lab("b", gast.Ref("E2"))), 1, mon.Spec{}), gast.Ref("E2"))),
